@@ -83,6 +83,24 @@ func (g *Gen) Line(fields ...string) {
 
 func (g *Gen) Count(k string) { g.Stats[k]++ }
 
+// failAfter is a writer that accepts n bytes and then fails: the code under test must report the error.
+type failAfter struct {
+	n       int
+	written []byte
+}
+
+func (w *failAfter) Write(p []byte) (int, error) {
+	if len(p) <= w.n {
+		w.n -= len(p)
+		w.written = append(w.written, p...)
+		return len(p), nil
+	}
+	k := w.n
+	w.written = append(w.written, p[:k]...)
+	w.n = 0
+	return k, fmt.Errorf("write failed after the budget")
+}
+
 // notesViolation reports whether a harness-side violation has been recorded.
 func (g *Gen) notesViolation() bool {
 	for _, n := range g.Notes {
